@@ -401,6 +401,11 @@ fn run(ctx: &mut Ctx, drops: bool) -> Verdict {
 }
 
 fn run_c05(ctx: &mut Ctx) -> Verdict {
+    // one run in 64 uses the real transports (R-sim): pipelined requests whose replies arrive as one
+    // byte stream cut at seeded positions (several complete replies in one delivery)
+    if ctx.tape.weighted(&[63, 1]) == 1 {
+        return super::c18_rsim::run_mode(ctx, super::c18_rsim::Mode::Coalesced);
+    }
     run(ctx, false)
 }
 
@@ -428,13 +433,13 @@ const COMPONENTS_C18: &[(&str, &str)] = &[
 
 pub static C05: PropSpec = PropSpec {
     id: "C05",
-    simulator: "S-sim",
+    simulator: "S-sim + R-sim",
     level: "exploration",
     runs: |t| if t == Tier::Thorough { 30_000_000 } else { 300_000 },
     enumerated: |_| 0,
     run: run_c05,
-    rule: "seeded schedules over 1-8 pipelined get/lock requests; each reply future awaited at once, kept and joined, or moved to its own task; replies delivered in order or permuted; send back-pressure; spurious polls. A run is non-trivial when >=2 replies were in flight at a delivery or a reader parked a reply for another waiter; distinct = distinct event-log hash (scheduler actions + messages)",
-    components: COMPONENTS,
+    rule: "one run in 64: 2-4 pipelined requests over the real TLS / SSH / local transport against the scripted peer, the replies (in a seeded order) delivered as one byte stream with 0-3 cuts, i.e. up to all of them in one delivery; every caller must get its own reply and one more request must work. Otherwise: seeded schedules over 1-8 pipelined get/lock requests; each reply future awaited at once, kept and joined, or moved to its own task; replies delivered in order or permuted; send back-pressure; spurious polls. A run is non-trivial when >=2 replies were in flight at a delivery or a reader parked a reply for another waiter; distinct = distinct event-log hash (scheduler actions + messages)",
+    components: COMPONENTS_C18,
     assumptions: &["the server answers every request exactly once (responsive server); one run in eight additionally injects a reply with an unknown message-id; in one run in six one rpc() call is abandoned after its bytes reached the server (dropped while the flush is pending, or the transport reports a write error): its message-id must never be used again, and the caller that happens to read the reply nobody waits for may get RequestNotFound (noted, not judged)"],
     watchdog_s: 30,
     stuck_is_verdict: false,
